@@ -2,7 +2,8 @@
 # Builds the verification engine offline from files on disk only.
 set -e
 export PATH=/opt/veriftools/go1.26.8/bin:$PATH GOTOOLCHAIN=local GOFLAGS=-mod=mod GOPROXY=off GOSUMDB=off
-cd /verif/govc
-mkdir -p /verif/bin
-go build -o /verif/bin/govc .
+HERE=$(cd "$(dirname "$0")" && pwd)
+cd "$HERE/govc"
+mkdir -p "$HERE/bin"
+go build -o "$HERE/bin/govc" .
 echo "govc built"
